@@ -73,16 +73,25 @@ func init() {
 	regExplore("C04", []WorldRun{wrPayReplay}, one(monitors.OnceInOrder{}))
 	// C07: the transaction worlds, the block-environment worlds (evidence, absences, block
 	// times, period boundaries), then the byte-edit neighbourhoods
-	c07 := append(txWorlds(),
-		WorldRun{World: "valbyz", Quick: b(0, 0, 3), Thorough: b(2, 1, 4)},
-		WorldRun{World: "val", Quick: b(1, 1, 2), Thorough: b(1, 1, 3)},
-		WorldRun{World: "stakepending", Quick: b(1, 1, 2), Thorough: b(2, 1, 4)},
-		WorldRun{World: "stakemany", Quick: b(0, 0, 3), Thorough: b(1, 1, 3)},
-		WorldRun{World: "mint", Quick: b(1, 1, 2), Thorough: b(1, 1, 3)},
-		WorldRun{World: "mint-nopool", Quick: b(1, 1, 2), Thorough: b(1, 1, 3)},
-		WorldRun{World: "bookdisk", Quick: b(2, 2, 1), Thorough: b(3, 3, 1)},
-	)
-	regExplore("C07", c07, one(monitors.NoCrash{}), RunC07Bytes)
+	c07 := []WorldRun{
+		wrPoolFee, wrCoin, wrPool, wrBook,
+		{World: "bookdisk", Quick: b(2, 2, 1), Thorough: b(3, 3, 1)},
+		{World: "mint", Quick: b(1, 1, 2), Thorough: b(1, 1, 3)},
+		{World: "mint-nopool", Quick: b(1, 1, 2), Thorough: b(1, 1, 3)},
+		{World: "valbyz", Quick: b(0, 0, 3), Thorough: b(2, 1, 4)},
+		wrBookTiny, wrStake,
+		{World: "val", Quick: b(1, 1, 2), Thorough: b(1, 1, 3)},
+		wrPay,
+		{World: "stakemany", Quick: b(0, 0, 2), Thorough: b(1, 1, 3)},
+		{World: "stakepending", Quick: b(1, 1, 2), Thorough: b(2, 1, 4)},
+	}
+	// the byte-edit pass runs first (it is cheap); the explorations follow in ascending cost, so that
+	// a tier's time budget running out cuts the most expensive tail only (reported as exhaustive=false)
+	MonitorsFor["C07"] = one(monitors.NoCrash{})
+	Register(&Check{ID: "C07", Level: "model_checking", Run: func(c *Ctx) {
+		RunC07Bytes(c)
+		RunExplore(c, c07, one(monitors.NoCrash{}), baseAssumptions...)
+	}})
 	regExplore("C21", []WorldRun{wrPay}, one(monitors.Checks{}))
 	regExplore("C26", []WorldRun{wrPayReplay, {World: "pool", Quick: b(2, 2, 1), Thorough: b(2, 2, 2), OneEnv: true, Prepare: addReplayItems}}, one(monitors.ChargedOnce{}))
 	c06 := txWorlds()
